@@ -178,6 +178,10 @@ func negotiateFeatures(ctx context.Context, s *Session, first, ws bool, features
 
 	var sent bool
 
+	// Whether one of the features negotiated from this list reported that the
+	// session is ready.
+	var ready bool
+
 	// If the list has any optional items that we support, negotiate them first
 	// before moving on to the required items.
 	for {
@@ -283,7 +287,11 @@ func negotiateFeatures(ctx context.Context, s *Session, first, ws bool, features
 		mask, rw, err = data.feature.Negotiate(ctx, s, s.features[data.feature.Name.Space])
 		s.in.d = oldDecoder
 		if err == nil {
-			s.state |= mask
+			// The Ready bit of a feature only takes effect once we're done with
+			// this feature set, and only if no stream restart is pending (see
+			// below): the other bits are applied right away.
+			ready = ready || mask&Ready == Ready
+			s.state |= mask &^ Ready
 		}
 		s.negotiated[data.feature.Name.Space] = struct{}{}
 
@@ -296,9 +304,13 @@ func negotiateFeatures(ctx context.Context, s *Session, first, ws bool, features
 		}
 	}
 
-	// If the list contains no required features and a stream restart is not
-	// required, negotiation is complete.
-	if !list.req && rw == nil {
+	// Negotiation is complete if one of the features said so or if the list
+	// contains no required features, unless a stream restart is pending: the
+	// session is never ready before the new stream has been negotiated,
+	// whatever the feature that asked for the restart, or one negotiated before
+	// it, reported.
+	mask &^= Ready
+	if rw == nil && (ready || !list.req) {
 		mask |= Ready
 	}
 
